@@ -663,14 +663,15 @@ theorem C10_unary_status_only (sc : Scenario) (env : Env) (t : RespTranscoder)
   simp [hn, hi]
 
 /-- A deadline that expires before the call completed — also after the response message arrived, while waiting
-    for the status — is a failure of origin `deadline` (DeadlineExceeded ⇒ 504 by `C10_table`), whatever `n` is. -/
+    for the status — is a failure of origin `deadline` (DeadlineExceeded ⇒ 504 by `C10_table`), whatever `n` is, as long
+    as nothing was written: every unary method, and a server stream before its first message. -/
 theorem C10_deadline_after_message (sc : Scenario) (env : Env) (t : RespTranscoder) (sse : Bool)
-    (hi : sc.inj = .deadline) :
+    (hi : sc.inj = .deadline) (hu : sc.rpc ≠ .serverStream ∨ sc.n = 0) :
     serveForward sc env t sse = failResp .deadline false (some t) (deadlineErr env) [] ∧
     wantStatus (deadlineErr env) = 504 := by
   constructor
   · unfold serveForward
-    simp [hi]
+    rcases hu with hu | hu <;> simp [hi, hu]
   · simp [wantStatus, explicitOf, deadlineErr, convert, RawErr.direct, cDeadlineExceeded, canonicalHttp]
 
 /-- Consequently such a call is never answered with 200 + the message: end to end, a unary scenario whose target
